@@ -225,6 +225,13 @@ fn put(out: &mut Vec<u8>, v: u64, n: usize, be: bool) {
 }
 
 pub fn run(t: &[&str]) -> String {
+    dump::EMPTY_LINE_PROGRAM_IS_NOTHING.store(true, std::sync::atomic::Ordering::Relaxed);
+    let r = run_inner(t);
+    dump::EMPTY_LINE_PROGRAM_IS_NOTHING.store(false, std::sync::atomic::Ordering::Relaxed);
+    r
+}
+
+fn run_inner(t: &[&str]) -> String {
     match t[0] {
         // c12.corpus <variant> units|ehframe|debugframe
         "c12.corpus" => {
